@@ -54,15 +54,23 @@ class SimThread:
     def _trace(self, frame, event, arg):
         fn = frame.f_code.co_filename
         if _SYNC_MARK in fn or fn.endswith(_SYNCHRO):
+            if self.s.opcodes:
+                frame.f_trace_opcodes = True
             return self._local
         return None
 
     def _local(self, frame, event, arg):
+        s = self.s
         if event == "line":
-            s = self.s
             cov = s.linecov
             if cov is not None:
                 cov.add((frame.f_code.co_filename, frame.f_lineno))
+            if s.opcodes:
+                return self._local      # pre-emption points are the opcode events
+            if s.line_p and not s.in_hook and s.cur is self:
+                s.nlines += 1
+                s.yield_point(frame)
+        elif event == "opcode" and s.opcodes:
             if s.line_p and not s.in_hook and s.cur is self:
                 s.nlines += 1
                 s.yield_point(frame)
@@ -102,6 +110,9 @@ class Sched:
         # more (all others finished or blocked with no timer pending): the longest
         # delay a pre-empted thread can suffer at that point.
         self.delay = self.mode == "delay"
+        # bytecode granularity: every instruction of httpcore/_sync is a pre-emption point
+        # (a thread can be parked between the two reads of one attribute in one line)
+        self.opcodes = bool(policy.get("opcodes"))
         if self.delay:
             self.line_p = 1.0
             self.d_thread = policy.get("thread")
@@ -240,7 +251,8 @@ class Sched:
             me.lsteps += 1
             if self.record is not None:
                 self.record.append((me.name, me.lsteps, frame.f_code.co_filename.rsplit("/", 1)[-1],
-                                    frame.f_lineno, me.nlocks))
+                                    frame.f_lineno, me.nlocks, frame.f_code.co_name,
+                                    frame.f_lasti))
             if me.lsteps == self.d_step and me.name == self.d_thread and len(self.threads) > 1:
                 me.state = "P"
                 self.world.stats["sched:parked"] += 1
